@@ -5,6 +5,8 @@ CONSTANTS
   MaxAttempts = 2
   ClearOnFail = TRUE
   ClearOnReadFail = TRUE
+  CtxEarly = FALSE
+  ClearLate = FALSE
   UseLock = TRUE
 INVARIANT CtxClearedWhenIdle
 INVARIANT NoResidue
